@@ -27,6 +27,7 @@ STEPS = 1
 FIX = ()
 FIXA = -1
 FIXB = -1
+FIXK = 0
 MAXSIZE = 0  # 0: the real decorated functions (maxsize 1024); 2: scaled-down composition tree_copy(lru_cache(2)(raw))
 
 
@@ -216,6 +217,93 @@ def history(o1: int, s1: int, e1: int, o2: int, s2: int, e2: int, o3: int, s3: i
     xs.reached()
     if bad:
         return xs.fail(f"after history {trail} (step = (call, string index, in-place edit of the returned tree)): {bad}", **desc)
+    return True
+
+
+# strings that a "smarter" cache key might identify: equal up to letter case / whitespace, but not the same expression
+TWINS = (
+    (0, "[21P]", "[21p]"), (0, "[UB1] U [1]", "[ub1] U [1]"), (0, "[1] U [2]", "[1] u [2]"), (0, "[1] U [2]", "[1]U[2]"), (0, "[1] U [2]", " [1] U [2] "),
+    (0, "[12]", "[1 2]"), (0, "([22P0..1] U [3]) X [4]", "([22p0..1] u [3]) x [4]"), (0, "[1] U [2]", "[2] U [1]"), (0, "[1][901]", "[1] [901]"),
+    (1, "Muss [1] U [32P]", "Muss [1] u [32p]"), (1, "Muss [1]", "MUSS [1]"), (1, "Muss [1]", "Muss  [1]"), (1, "Muss [1] Kann", "Muss [1] kann"), (1, "X [1]", "x [1]"),
+)
+
+
+def twins(idx: int, swapped: bool) -> bool:
+    """
+    pre: 0 <= idx < len(TWINS)
+    post: _
+    """
+    fns = setup()
+    idx = xs.pick(idx, 0, len(TWINS))
+    op, a, b = TWINS[idx]
+    order = (b, a) if swapped else (a, b)
+    which = "condition" if op == 0 else "ahb"
+    for text in order:
+        got = exc = None
+        try:
+            got = fns[op](text)
+        except SyntaxError as e:
+            exc = e
+        except Exception as e:  # pylint:disable=broad-except
+            xs.reached()
+            return xs.fail(f"history {order}: parsing '{text}' raised {type(e).__name__}: {e}", idx=idx, swapped=swapped)
+        with xs.nt():
+            try:
+                want = env.real_parser(which).parse(text)
+            except Exception:  # pylint:disable=broad-except
+                want = None
+            if want is None:
+                msg = None if exc is not None else f"'{text}' (parsed after its near-twin in {order}) returned {show(got)}, a fresh parser rejects it"
+            elif exc is not None:
+                msg = f"'{text}' (parsed after its near-twin in {order}) was rejected with SyntaxError, a fresh parser returns {show(want)}"
+            else:
+                msg = None if same(got, want) else f"'{text}' (parsed after its near-twin in {order}) returned {show(got)}, a fresh uncached parse gives {show(want)}"
+        if msg:
+            xs.reached()
+            return xs.fail(msg, idx=idx, swapped=swapped)
+    xs.reached()
+    return True
+
+
+RES_STRINGS = ("Muss [5] U [UB3]", "[UB3] O [7]", "X [UB1] U [UB2]", "Muss [UB3] Kann [UB3][901]", "Muss [5] U [UB1]")
+
+
+def resolve_edit(s1: int, s2: int, kind: int) -> bool:
+    """
+    pre: kind == FIXK
+    pre: 0 <= s1 < len(RES_STRINGS) and 0 <= s2 < len(RES_STRINGS) and 0 <= kind < 4
+    post: _
+    """
+    # a caller resolves an expression (time conditions replaced) and then edits EVERY node of the tree it got; resolving
+    # any expression afterwards must give what it gave before
+    setup()
+    s1, s2, kind = xs.pick(s1, 0, len(RES_STRINGS)), xs.pick(s2, 0, len(RES_STRINGS)), xs.pick(kind, 0, 4)
+    a, b = RES_STRINGS[s1], RES_STRINGS[s2]
+    try:
+        base = detloop.run(parse_expression_including_unresolved_subexpressions(b))
+        with xs.nt():
+            base_txt = show(base)
+        xs.clear_ahbicht_caches()
+        first = detloop.run(parse_expression_including_unresolved_subexpressions(a))
+        with xs.nt():
+            for node in list(first.iter_subtrees()):
+                if kind == 0:
+                    node.children[:] = [c if isinstance(c, Tree) else Token("CONDITION_KEY", "666") for c in node.children]
+                elif kind == 1:
+                    node.data = "hacked"
+                elif kind == 2:
+                    node.children.append(Tree("condition", [Token("CONDITION_KEY", "777")]))
+                else:
+                    del node.children[1:]
+        again = detloop.run(parse_expression_including_unresolved_subexpressions(b))
+    except Exception as e:  # pylint:disable=broad-except
+        xs.reached()
+        return xs.fail(f"resolving '{a}' / '{b}' raised {type(e).__name__}: {e}", s1=s1, s2=s2, kind=kind)
+    xs.reached()
+    with xs.nt():
+        again_txt = show(again)
+    if again_txt != base_txt:
+        return xs.fail(f"'{b}' resolves to {again_txt} after a caller resolved '{a}' and edited every node of the tree it got (edit kind {kind}); before that it resolved to {base_txt}", s1=s1, s2=s2, kind=kind)
     return True
 
 
